@@ -13,6 +13,7 @@
   the correspondence (each case in its own guarded subprocess batch).
 -/
 import FqeVerif.Model.Guards
+import FqeVerif.Generated.GuardInventory
 namespace C14
 open Model
 
@@ -253,5 +254,133 @@ example : (admitPattern true [⟨0, false, true⟩, ⟨0, true, true⟩]).isSome
 
 example : admitApply true true .restricted 3 2 = some .valueError ∧ admitApply true false .sparse 0 2 = some .typeError ∧
     admitApply true true .spinOrbital 4 2 = none := by decide
+
+/-! ### guard inventory (regenerated from the Python sources on every run by harness/translate/guards.py) -/
+
+/-- the reviewed guards of the anchored modules: (file, function, raise/assert, exception class, triggering condition) -/
+def reviewedGuards : List (String × String × String × String × String) := [
+  ("src/fqe/wavefunction.py", "Wavefunction.__init__", "raise", "TypeError", "not self._conserve_spin and (not self._conserve_number)"),
+  ("src/fqe/wavefunction.py", "Wavefunction.__init__", "raise", "ValueError", "len(user_input_norbs) != 1 && param"),
+  ("src/fqe/wavefunction.py", "Wavefunction.ax_plus_y", "raise", "ValueError", "self._civec.keys() != wfn._civec.keys()"),
+  ("src/fqe/wavefunction.py", "Wavefunction.apply", "raise", "TypeError", "self._conserve_number && not self._conserve_number or not hamil.conserve_number()"),
+  ("src/fqe/wavefunction.py", "Wavefunction.apply", "raise", "TypeError", "hamil.conserve_number() && not self._conserve_number or not hamil.conserve_number()"),
+  ("src/fqe/wavefunction.py", "Wavefunction.apply", "raise", "ValueError", "hamil.dim() != expected && not (isinstance(hamil, diagonal_coulomb.DiagonalCoulomb))"),
+  ("src/fqe/wavefunction.py", "Wavefunction._apply_array", "assert", "AssertionError", "array[0].shape[0] == self._norb or array[0].shape[0] == self._norb * 2"),
+  ("src/fqe/wavefunction.py", "Wavefunction._apply_array", "assert", "AssertionError", "array[0].shape[0] == self._norb * 2"),
+  ("src/fqe/wavefunction.py", "Wavefunction._apply_diagonal_coulomb", "raise", "ValueError", "hamil.dim() != self._norb"),
+  ("src/fqe/wavefunction.py", "Wavefunction._number_sectors", "raise", "ValueError", "set(self._civec.keys()).intersection(sp_compl) != sp_compl"),
+  ("src/fqe/wavefunction.py", "Wavefunction.apply_generated_unitary", "assert", "AssertionError", "isinstance(hamil, hamiltonian.Hamiltonian)"),
+  ("src/fqe/wavefunction.py", "Wavefunction.apply_generated_unitary", "raise", "TypeError", "not isinstance(expansion, int)"),
+  ("src/fqe/wavefunction.py", "Wavefunction.apply_generated_unitary", "assert", "AssertionError", "algo in algo_avail"),
+  ("src/fqe/wavefunction.py", "Wavefunction.apply_generated_unitary", "raise", "RuntimeError", "algo == 'taylor'"),
+  ("src/fqe/wavefunction.py", "Wavefunction.apply_generated_unitary", "assert", "AssertionError", "spec_lim"),
+  ("src/fqe/wavefunction.py", "Wavefunction.apply_generated_unitary", "raise", "RuntimeError", "algo == 'chebyshev' && not (algo == 'taylor')"),
+  ("src/fqe/wavefunction.py", "Wavefunction.set_wfn", "raise", "ValueError", "strategy == 'from_data' and (not raw_data)"),
+  ("src/fqe/wavefunction.py", "Wavefunction.set_wfn", "raise", "ValueError", "len(self.sectors()) != 1 && strategy == 'hartree-fock'"),
+  ("src/fqe/wavefunction.py", "Wavefunction.transform", "assert", "AssertionError", "external == (upp is not None)"),
+  ("src/fqe/wavefunction.py", "Wavefunction.transform", "assert", "AssertionError", "numpy.allclose(rotation, low @ upp)"),
+  ("src/fqe/wavefunction.py", "Wavefunction.transform.transpose_matrix", "assert", "AssertionError", "low.shape[1] == ndim and upp.shape == (ndim, ndim)"),
+  ("src/fqe/wavefunction.py", "Wavefunction.transform.process_matrix", "assert", "AssertionError", "low.shape[1] == ndim and upp.shape == (ndim, ndim)"),
+  ("src/fqe/wavefunction.py", "Wavefunction.transform", "assert", "AssertionError", "numpy.std(rotation[:norb, norb:]) + numpy.std(rotation[norb:, :norb]) < 1e-08"),
+  ("src/fqe/wavefunction.py", "Wavefunction.time_evolve", "assert", "AssertionError", "isinstance(hamil, hamiltonian.Hamiltonian)"),
+  ("src/fqe/wavefunction.py", "Wavefunction.time_evolve", "raise", "TypeError", "self._conserve_number && not self._conserve_number or not hamil.conserve_number()"),
+  ("src/fqe/wavefunction.py", "Wavefunction.time_evolve", "raise", "TypeError", "hamil.conserve_number() && not self._conserve_number or not hamil.conserve_number()"),
+  ("src/fqe/wavefunction.py", "Wavefunction.time_evolve", "raise", "ValueError", "hamil.dim() != expected && not isinstance(hamil, (sparse_hamiltonian.SparseHamiltonian, diagonal_hamiltonian.Diagonal))"),
+  ("src/fqe/wavefunction.py", "Wavefunction.time_evolve", "raise", "ValueError", "inplace and (not is_diag and (not hamil.quadratic())) && not (isinstance(hamil, sparse_hamiltonian.SparseHamiltonian) and hamil.is_individual())"),
+  ("src/fqe/wavefunction.py", "Wavefunction.expectationValue", "raise", "TypeError", "not isinstance(ops, hamiltonian.Hamiltonian)"),
+  ("src/fqe/wavefunction.py", "Wavefunction._apply_individual_nbody", "assert", "AssertionError", "isinstance(hamil, sparse_hamiltonian.SparseHamiltonian)"),
+  ("src/fqe/wavefunction.py", "Wavefunction._apply_individual_nbody", "raise", "ValueError", "hamil.nterms() > 1"),
+  ("src/fqe/wavefunction.py", "Wavefunction._apply_individual_nbody", "raise", "ValueError", "oper[0] >= self._norb"),
+  ("src/fqe/wavefunction.py", "Wavefunction._apply_individual_nbody", "raise", "ValueError", "oper[0] >= self._norb"),
+  ("src/fqe/wavefunction.py", "Wavefunction._apply_individual_nbody", "raise", "ValueError", "len(daga) + len(dagb) != len(undaga) + len(undagb)"),
+  ("src/fqe/wavefunction.py", "Wavefunction._evolve_individual_nbody", "raise", "TypeError", "not isinstance(hamil, sparse_hamiltonian.SparseHamiltonian)"),
+  ("src/fqe/wavefunction.py", "Wavefunction._evolve_individual_nbody", "raise", "ValueError", "hamil.nterms() > 2"),
+  ("src/fqe/wavefunction.py", "Wavefunction._evolve_individual_nbody", "raise", "ValueError", "not check && self._conserve_number"),
+  ("src/fqe/wavefunction.py", "Wavefunction._evolve_individual_nbody", "raise", "ValueError", "not check && self._conserve_number"),
+  ("src/fqe/wavefunction.py", "Wavefunction._evolve_individual_nbody", "raise", "ValueError", "oper[0] >= self._norb"),
+  ("src/fqe/wavefunction.py", "Wavefunction._evolve_individual_nbody", "raise", "ValueError", "oper[0] >= self._norb"),
+  ("src/fqe/wavefunction.py", "Wavefunction._evolve_individual_nbody", "raise", "ValueError", "not numpy.abs(coeff0 - numpy.conj(coeff1) * parity) < 1e-08 && hamil.nterms() == 2"),
+  ("src/fqe/wavefunction.py", "Wavefunction._compute_rdm", "assert", "AssertionError", "rank > 0"),
+  ("src/fqe/wavefunction.py", "Wavefunction._compute_rdm", "assert", "AssertionError", "rank < 5"),
+  ("src/fqe/wavefunction.py", "Wavefunction._compute_rdm", "assert", "AssertionError", "brawfn is None or key in brawfn.sectors()"),
+  ("src/fqe/wavefunction.py", "Wavefunction._compute_rdm", "assert", "AssertionError", "brawfn is None or nkey in brawfn._number_sectors().keys()"),
+  ("src/fqe/util.py", "alpha_beta_electrons", "raise", "ValueError", "nele < 0"),
+  ("src/fqe/util.py", "alpha_beta_electrons", "raise", "ValueError", "nele < abs(m_s)"),
+  ("src/fqe/util.py", "alpha_beta_electrons", "raise", "ValueError", "(nele + m_s) % 2 != 0"),
+  ("src/fqe/util.py", "validate_config", "raise", "ValueError", "nalpha < 0"),
+  ("src/fqe/util.py", "validate_config", "raise", "ValueError", "nbeta < 0"),
+  ("src/fqe/util.py", "validate_config", "raise", "ValueError", "norb < 0"),
+  ("src/fqe/util.py", "validate_config", "raise", "ValueError", "norb < nalpha or norb < nbeta"),
+  ("src/fqe/util.py", "validate_tuple", "assert", "AssertionError", "isinstance(matrices, tuple)"),
+  ("src/fqe/util.py", "validate_tuple", "assert", "AssertionError", "isinstance(term, numpy.ndarray)"),
+  ("src/fqe/util.py", "validate_tuple", "assert", "AssertionError", "2 * (rank + 1) == term.ndim"),
+  ("src/fqe/fqe_decorators.py", "build_hamiltonian", "raise", "TypeError", "not isinstance(ops, FermionOperator)"),
+  ("src/fqe/fqe_decorators.py", "build_hamiltonian", "assert", "AssertionError", "is_hermitian(ops)"),
+  ("src/fqe/fqe_decorators.py", "build_hamiltonian", "assert", "AssertionError", "len(dtypes) == 1"),
+  ("src/fqe/fqe_decorators.py", "split_openfermion_tensor", "raise", "ValueError", "rank % 2"),
+  ("src/fqe/fqe_decorators.py", "fermionops_tomatrix", "raise", "ValueError", "norb <= ablk // 2"),
+  ("src/fqe/fqe_decorators.py", "fermionops_tomatrix", "raise", "ValueError", "norb <= bblk // 2"),
+  ("src/fqe/fqe_decorators.py", "fermionops_tomatrix", "raise", "ValueError", "rank % 2"),
+  ("src/fqe/fqe_decorators.py", "fermionops_tomatrix", "raise", "ValueError", "not term[i][1] && i < rank // 2"),
+  ("src/fqe/fqe_decorators.py", "fermionops_tomatrix", "raise", "ValueError", "term[i][1] && not (i < rank // 2)"),
+  ("src/fqe/fqe_decorators.py", "process_rank2_matrix", "raise", "ValueError", "not numpy.allclose(mat, mat.conj().T)"),
+  ("src/fqe/fqe_decorators.py", "check_diagonal_coulomb", "assert", "AssertionError", "mat.shape == (dim, dim, dim, dim)"),
+  ("src/fqe/wick.py", "wick.process_string", "assert", "AssertionError", "len(rawinp) % 2 != 1"),
+  ("src/fqe/wick.py", "wick.process_string", "raise", "ValueError", "not (len(iop) == 1 or (len(iop) == 2 and iop[1] == '^'))"),
+  ("src/fqe/wick.py", "wick.process_string", "assert", "AssertionError", "iop[0] not in used"),
+  ("src/fqe/wick.py", "wick.process_string", "raise", "ValueError", "spinfree and other[2] == ispin and (other[1] == dagger)"),
+  ("src/fqe/wick.py", "wick", "assert", "AssertionError", "len(targ) % 2 == 0"),
+  ("src/fqe/wick.py", "wick", "assert", "AssertionError", "len(data) >= rank"),
+  ("src/fqe/wick.py", "wick", "assert", "AssertionError", "len(cops) % 2 == 0"),
+  ("src/fqe/wick.py", "wick", "assert", "AssertionError", "len(term[1]) % 2 == 0"),
+  ("src/fqe/wick.py", "wickfill", "assert", "AssertionError", "srank * 2 == len(indices)"),
+  ("src/fqe/wick.py", "wickfill", "assert", "AssertionError", "len(delta) == 1"),
+  ("src/fqe/wick.py", "wickfill", "assert", "AssertionError", "not delta"),
+  ("src/fqe/wick.py", "wickfill", "assert", "AssertionError", "len(delta) == 2"),
+  ("src/fqe/wick.py", "wickfill", "assert", "AssertionError", "len(delta) == 1"),
+  ("src/fqe/wick.py", "wickfill", "assert", "AssertionError", "not delta"),
+  ("src/fqe/wick.py", "wickfill", "assert", "AssertionError", "len(delta) == 3"),
+  ("src/fqe/wick.py", "wickfill", "assert", "AssertionError", "len(delta) == 2"),
+  ("src/fqe/wick.py", "wickfill", "assert", "AssertionError", "len(delta) == 1"),
+  ("src/fqe/wick.py", "wickfill", "assert", "AssertionError", "not delta"),
+  ("src/fqe/wick.py", "wickfill", "assert", "AssertionError", "len(delta) == 4"),
+  ("src/fqe/wick.py", "wickfill", "assert", "AssertionError", "len(delta) == 3"),
+  ("src/fqe/wick.py", "wickfill", "assert", "AssertionError", "len(delta) == 2"),
+  ("src/fqe/wick.py", "wickfill", "assert", "AssertionError", "len(delta) == 1"),
+  ("src/fqe/wick.py", "wickfill", "assert", "AssertionError", "not delta"),
+  ("src/fqe/fqe_ops/fqe_ops_utils.py", "validate_rdm_string", "assert", "AssertionError", "nops % 2 == 0"),
+  ("src/fqe/fqe_ops/fqe_ops_utils.py", "validate_rdm_string", "raise", "TypeError", "not (annihilation.match(opr)) && not (creation.match(opr))"),
+  ("src/fqe/fqe_ops/fqe_ops_utils.py", "validate_rdm_string", "assert", "AssertionError", "nani == ncre"),
+  ("src/fqe/fqe_ops/fqe_ops_utils.py", "validate_rdm_string", "raise", "TypeError", "not (annihilation.match(opr)) && not (creation.match(opr))"),
+  ("src/fqe/fqe_ops/fqe_ops_utils.py", "validate_rdm_string", "raise", "ValueError", "nani != ncre"),
+  ("src/fqe/hamiltonians/general_hamiltonian.py", "General.__init__", "raise", "TypeError", "not isinstance(matrix, numpy.ndarray)"),
+  ("src/fqe/hamiltonians/general_hamiltonian.py", "General.__init__", "raise", "ValueError", "matrix.ndim % 2"),
+  ("src/fqe/hamiltonians/general_hamiltonian.py", "General.__init__", "assert", "AssertionError", "self._tensor"),
+  ("src/fqe/hamiltonians/diagonal_hamiltonian.py", "Diagonal.__init__", "raise", "ValueError", "hdiag.ndim != 1"),
+  ("src/fqe/hamiltonians/restricted_hamiltonian.py", "RestrictedHamiltonian.__init__", "raise", "TypeError", "not (isinstance(rank, int) and isinstance(matrix, numpy.ndarray))"),
+  ("src/fqe/hamiltonians/restricted_hamiltonian.py", "RestrictedHamiltonian.__init__", "raise", "ValueError", "matrix.ndim % 2"),
+  ("src/fqe/hamiltonians/restricted_hamiltonian.py", "RestrictedHamiltonian.__init__", "assert", "AssertionError", "self._tensor"),
+  ("src/fqe/hamiltonians/sparse_hamiltonian.py", "SparseHamiltonian.dim", "raise", "NotImplementedError", "unconditional"),
+  ("src/fqe/_fqe_control.py", "get_hamiltonian_from_openfermion", "assert", "AssertionError", "isinstance(ops, FermionOperator)")
+]
+
+set_option maxRecDepth 100000 in
+/-- every guard present in the current sources is a reviewed one with the reviewed condition and exception class, and
+    none has disappeared (a removed, moved, weakened or re-typed guard changes the regenerated table) -/
+theorem C14_guard_inventory : GenGuards.inventory = reviewedGuards := by decide +kernel
+
+/-- the guards the decision models of `Model/Guards.lean` transcribe, with the transcribed conditions -/
+def modelledGuards : List (String × String × String × String × String) := [
+  ("src/fqe/fqe_decorators.py", "fermionops_tomatrix", "raise", "ValueError", "norb <= ablk // 2"),
+  ("src/fqe/fqe_decorators.py", "fermionops_tomatrix", "raise", "ValueError", "norb <= bblk // 2"),
+  ("src/fqe/wick.py", "wick.process_string", "assert", "AssertionError", "iop[0] not in used"),
+  ("src/fqe/wick.py", "wick.process_string", "assert", "AssertionError", "len(rawinp) % 2 != 1"),
+  ("src/fqe/wavefunction.py", "Wavefunction.ax_plus_y", "raise", "ValueError", "self._civec.keys() != wfn._civec.keys()"),
+  ("src/fqe/wavefunction.py", "Wavefunction.apply_generated_unitary", "raise", "TypeError", "not isinstance(expansion, int)")]
+
+set_option maxRecDepth 100000 in
+/-- … are present in the current sources -/
+theorem C14_modelled_guards_present : modelledGuards.all (fun g => GenGuards.inventory.contains g) = true := by
+  decide +kernel
 
 end C14
